@@ -18,6 +18,7 @@ import (
 	"os"
 	"path/filepath"
 	"regexp"
+	"sort"
 	"strconv"
 	"strings"
 )
@@ -583,6 +584,54 @@ func fact(k kernel) (bool, string, error) {
 			return true
 		})
 		return mk && cp && lit, fmt.Sprintf("make=%v copy=%v literal-stores-the-copy=%v", mk, cp, lit), nil
+	case "backendcfg-passthrough", "backendcfg-identity":
+		// the constructor hands cfg.BackendConfig to the default backend (`cfg.BackendConfig.Use`); the only fields of it that it
+		// writes are Name, Logger and Stats (passthrough), and Name / Stats are taken from the failover's own (identity)
+		written := map[string]string{}
+		other := ""
+		uses := false
+		ast.Inspect(fd.Body, func(x ast.Node) bool {
+			switch y := x.(type) {
+			case *ast.AssignStmt:
+				for i, l := range y.Lhs {
+					lt := text(l)
+					if strings.HasPrefix(lt, "cfg.BackendConfig.") && len(y.Lhs) == len(y.Rhs) && y.Tok == token.ASSIGN {
+						written[strings.TrimPrefix(lt, "cfg.BackendConfig.")] = text(y.Rhs[i])
+					} else if strings.HasPrefix(lt, "cfg.BackendConfig") {
+						other = text(y)
+					}
+				}
+			case *ast.IncDecStmt:
+				if strings.HasPrefix(text(y.X), "cfg.BackendConfig") {
+					other = text(y)
+				}
+			case *ast.UnaryExpr:
+				if y.Op == token.AND && strings.HasPrefix(text(y.X), "cfg.BackendConfig") {
+					other = text(y) // (its address escapes: anything may write it)
+				}
+			case *ast.CallExpr:
+				if len(y.Args) == 1 && text(y.Args[0]) == "cfg.BackendConfig.Use" && strings.HasPrefix(text(y.Fun), "NewShardedMap") {
+					uses = true
+				}
+			}
+			return true
+		})
+		fields := []string{}
+		for f := range written {
+			fields = append(fields, f)
+		}
+		sort.Strings(fields)
+		if k.unit == "backendcfg-passthrough" {
+			ok := uses && other == ""
+			for _, f := range fields {
+				if f != "Name" && f != "Logger" && f != "Stats" {
+					ok = false
+				}
+			}
+			return ok, fmt.Sprintf("default backend built from cfg.BackendConfig.Use: %v; fields of BackendConfig written: %v %s", uses, fields, other), nil
+		}
+		ok := uses && written["Name"] == "cfg.Name" && written["Stats"] == "cfg.Stats"
+		return ok, fmt.Sprintf("BackendConfig.Name = %q, BackendConfig.Stats = %q", written["Name"], written["Stats"]), nil
 	}
 	return false, "", fmt.Errorf("unknown fact %q", k.unit)
 }
